@@ -540,9 +540,39 @@ fn fixture_tag(path: &str, bytes: &[u8]) -> &'static str {
     }
 }
 
+/// the member of a fat Mach-O file that `load_map` ends up with (it tries no disambiguator, then x86_64, then arm64);
+/// any other file as it is. Everything the harness reads itself (layout, presentation) is read from this slice;
+/// samply does the same through a `RangeReadRef`, so file offsets of a fat member are relative to the member.
+fn thin_slice(bytes: &[u8]) -> &[u8] {
+    use samply_symbols::object::read::macho::{FatArch, MachOFatFile32, MachOFatFile64};
+    use samply_symbols::object::Architecture;
+    let mut members: Vec<(Architecture, (u64, u64))> = Vec::new();
+    match object::FileKind::parse(bytes) {
+        Ok(object::FileKind::MachOFat32) => {
+            if let Ok(f) = MachOFatFile32::parse(bytes) {
+                members = f.arches().iter().map(|a| (a.architecture(), a.file_range())).collect();
+            }
+        }
+        Ok(object::FileKind::MachOFat64) => {
+            if let Ok(f) = MachOFatFile64::parse(bytes) {
+                members = f.arches().iter().map(|a| (a.architecture(), a.file_range())).collect();
+            }
+        }
+        _ => return bytes,
+    }
+    for want in [Architecture::X86_64, Architecture::Aarch64] {
+        if let Some((_, (off, size))) = members.iter().find(|m| m.0 == want) {
+            if let Some(s) = bytes.get(*off as usize..(*off + *size) as usize) {
+                return s;
+            }
+        }
+    }
+    bytes
+}
+
 /// (relative address base, file ranges (file offset, size, svma)) through the harness's own use of `object`
 fn object_layout(bytes: &[u8]) -> Option<(u64, Vec<(u64, u64, u64)>)> {
-    let file = object::File::parse(bytes).ok()?;
+    let file = object::File::parse(thin_slice(bytes)).ok()?;
     let base = relative_address_base(&file);
     let mut ranges: Vec<(u64, u64, u64)> = file
         .segments()
@@ -664,7 +694,7 @@ fn census() -> Vec<String> {
         match catch_unwind(AssertUnwindSafe(|| load_map(bytes.clone(), &path))) {
             Ok(Ok(_)) => {
                 *loaded.entry(tag).or_default() += 1;
-                if tag != "pdb" && objpres::presentation(&bytes, tag).is_some() {
+                if tag != "pdb" && objpres::presentation(thin_slice(&bytes), tag).is_some() {
                     *modelled.entry(tag).or_default() += 1;
                 }
             }
@@ -789,7 +819,7 @@ fn fixture_cases(tier: Tier) -> Vec<Case> {
         }
         // object kinds: the `object` presentation of the file goes into the ops and the Lean model builds the symbol
         // list itself (`kind fxobj`); the all-symbol sweep below (judge-only) is then kept in the thorough tier only
-        let pres = if tag == "pdb" { None } else { objpres::presentation(&bytes, tag) };
+        let pres = if tag == "pdb" { None } else { objpres::presentation(thin_slice(&bytes), tag) };
         if let Some(pres) = &pres {
             // quick: at most ~1500 lookups per file; thorough: at most ~24000 in cases of 4000
             let (cap, per_case) = if tier == Tier::Thorough { (24000usize, 4000usize) } else { (1500usize, 1500usize) };
